@@ -31,7 +31,8 @@ EXPLANATION = (
     "the batch's ids), resets the pending links and rebuilds them only from "
     "the surviving nodes' own parent ids, then commits; R10.7 the stored "
     "record and link copy each field from the span's field of the same "
-    "name.")
+    "name."
+    " Added: who may mutate the pending list (arrival order), no flush between a span's node and its link, the stored-id lookup dominates the retry, link guard agrees with the stored parent id.")
 TRUSTED = ["builder-method semantics table of sa/sqlabs.py"]
 NOT_DECIDED = ["behaviour of SQLAlchemy's unit of work on partial flushes"]
 ASSUMPTIONS = ["one process writes the store at a time"]
